@@ -19,6 +19,38 @@ REGISTRY = {
         "assumptions": ["names are ASCII; types/data types are bytes; addresses are 0..65535 (the reader UTF-8-decodes names)",
                         "known finding E1 (files with empty data) is excluded by K_C06_emptyData and listed in known_findings.json"],
     },
+    "C07": {
+        "level": "proof",
+        "family": "dsk",
+        "modules": ["CoCoVerif.Props.C07", "CoCoVerif.Props.C08"],
+        "theorems": [P + "C07_partial", P + "C07_write_list", P + "C07_reader_partial", P + "C08_full"],
+        "rule": "cases = seeded histories of 1..5 files (ML / BASIC / ASCII, names 1..12 letters/digits either case, lengths within 12 bytes of "
+                "multiples of 2304 and 256 and random, arbitrary content) under the default, ascending, descending and shuffled fill orders, "
+                "written and listed back (dsk.rt); well-formed fragmented images built from the format description with random disjoint chains and "
+                "slots (dsk.frag); damaged images (dsk.corrupt); a length sweep (dsk.sweep) in the thorough tier; distinct = distinct (stream, input, outcome) digest",
+        "assumptions": ["names/extensions are ASCII; files other than machine language carry no load/exec address (the format has no field for them)",
+                        "reader completeness (b) excludes ASCII files whose last-granule marker is $C0 (K_C07_zeroSectorAscii); the tool never writes those"],
+    },
+    "C08": {
+        "level": "proof",
+        "family": "dsk",
+        "modules": ["CoCoVerif.Props.C08"],
+        "theorems": [P + "C08_full"],
+        "rule": "cases = seeded histories as for C07 plus fill-to-exhaustion histories; compared: whole-image hash, FAT sector and directory of the image "
+                "written (model vs implementation); oracle: Spec.DiskBasic.Fsck and the reference reader run on the implementation's image; "
+                "exhaustive: calculate_* over all 65,536 lengths x 3 kinds and seek_granule over all 68 granules",
+        "assumptions": ["fill order entries are granule numbers (< 68); names ASCII; data length <= 65535"],
+    },
+    "C15": {
+        "level": "proof",
+        "family": "dsk",
+        "modules": ["CoCoVerif.Props.C15", "CoCoVerif.Props.C08"],
+        "theorems": [P + "C15_full", P + "C08_full"],
+        "rule": "cases = fill-to-exhaustion histories (74 tiny files: slot exhaustion; 40 multi-granule files: granule exhaustion; mixtures) under default "
+                "and permuted fill orders, one file at a time; after the history the reference fsck recounts free granules and slots; the first "
+                "failing add must be a clean diagnostic exactly when the file does not fit; plus the dsk.write histories",
+        "assumptions": ["the fill order offers every granule (checked for the shipped order by the exhaustive fill histories and by Gen.granuleFillOrder entering the model)"],
+    },
     "C14": {
         "level": "proof",
         "family": "cas",
@@ -35,6 +67,32 @@ NOT_BUILT = "check not built yet at this commit (work in progress; see DESIGN.md
 NOT_APPLICABLE = {("C%02d" % i): NOT_BUILT for i in range(1, 20)}
 
 MANIFEST_TEXT = {
+    "C07": {
+        "text": "Lean theorems C07_write_list (for EVERY valid fill order and file list: list(write fs) = norm fs) and C07_reader_partial (the reader "
+                "returns exactly what the reference reader Spec.DiskBasic.read finds on ANY image satisfying Spec.DiskBasic.Fsck, chains in any order, "
+                "not adjacent), proved from an invariant over operation histories on the flat 161,280-byte buffer. One exclusion "
+                "(ASCII file with a $C0 last-granule marker). Tie: differential runs on written, fragmented and damaged images every run.",
+        "design_ref": "DESIGN.md section 5 C07, section 6 F",
+        "note": "model = disk.py after the fix: commits (reader follows the FAT chain); trusted: Spec/DiskBasic.lean, Lean kernel, sampled correspondence",
+        "technique": "Lean 4 proof (history invariant on the flat disk buffer, chain-walk induction) + differential correspondence + reference fsck/reader oracle",
+    },
+    "C08": {
+        "text": "Lean theorem C08_full: for every fill order with entries < 68 and every sequence of stored files, the image written satisfies "
+                "Spec.DiskBasic.Fsck (size, chains within 0..67 ending in $C0..$C9 without revisits, disjoint, every non-free FAT entry on a chain, implied "
+                "length = stored stream incl. ML header/trailer, everything else still $FF) and the reference reader returns exactly the stored files. "
+                "No exclusions. Tie: whole-image hash + FAT + directory compared with the implementation on every run; calculate_*/seek_granule exhaustively.",
+        "design_ref": "DESIGN.md section 5 C08",
+        "note": "model = disk.py after the fix: commits (postamble split across granules); trusted: Spec/DiskBasic.lean, Lean kernel, correspondence (exhaustive on the arithmetic helpers, sampled on histories)",
+        "technique": "Lean 4 proof: ghost-abstraction invariant Inv img abs preserved by addFile, lifted by induction over histories + differential correspondence + fsck oracle",
+    },
+    "C15": {
+        "text": "Lean theorem C15_full: on every image reachable from a blank one, a file needing n <= free granules with a free slot is stored with free' = free - n, "
+                "slots' = slots - 1, previously used FAT entries untouched, n = streamLength/2304 + 1; otherwise addFile is a diagnostic; blank offers 68 and 72. "
+                "Tie: fill-to-exhaustion histories against the implementation one add at a time, recounted by the reference fsck.",
+        "design_ref": "DESIGN.md section 5 C15",
+        "note": "the 'host file left as it was' clause is carried by the VirtualFile model (C10: a diagnostic in save writes nothing); trusted as for C08",
+        "technique": "Lean 4 proof (corollary of the C08 invariant with counting) + differential fill-to-exhaustion histories + fsck recount oracle",
+    },
     "C06": {
         "text": "Lean theorems C06_roundtrip_partial (list(write fs) = norm fs for every file list, every data length and content) and "
                 "C06_reader_partial (the scanning reader returns exactly the files of ANY well-formed tape stream: arbitrary gap/leader "
